@@ -477,6 +477,15 @@ func storageCheck(d any, way int, st *Stats, afterStore func()) error {
 		if err := same("List.GetTF", l.GetTF(fmt.Sprintf("#%d", idx))); err != nil {
 			return err
 		}
+		// tree-form reads THROUGH the stored derived value reach what it holds
+		through := fmt.Sprintf("#%d.wt", idx)
+		if isList {
+			through = fmt.Sprintf("#%d#0", idx)
+		}
+		var inner any
+		if p, panicked := catch(func() { inner = l.GetTF(through) }); panicked || inner != "written-through" || l.TypeOfTF(through) != at.TypeString {
+			return errf("GetTF(%q)/TypeOfTF on the host do not read through the stored derived value (stored via %s): got %s, panic %v, type %d", through, name, showAny(inner), p, l.TypeOfTF(through))
+		}
 		if err := same("List.Slice", l.Slice()[idx]); err != nil {
 			return err
 		}
@@ -605,6 +614,14 @@ func storageCheck(d any, way int, st *Stats, afterStore func()) error {
 		}
 		if err := same("Object.GetTF", o.GetTF("."+key)); err != nil {
 			return err
+		}
+		through := "." + key + ".wt"
+		if isList {
+			through = "." + key + "#0"
+		}
+		var inner any
+		if p, panicked := catch(func() { inner = o.GetTF(through) }); panicked || inner != "written-through" || o.TypeOfTF(through) != at.TypeString {
+			return errf("GetTF(%q)/TypeOfTF on the host do not read through the stored derived value (stored via %s): got %s, panic %v, type %d", through, name, showAny(inner), p, o.TypeOfTF(through))
 		}
 		if err := same("Object.Dict", o.Dict()[key]); err != nil {
 			return err
